@@ -119,6 +119,16 @@ func (s *space) word(i int64, buf []int) []int {
 	panic("word index out of range")
 }
 
+// nextWord returns the first executed word at or after index i.
+func (s *space) nextWord(i int64) []int {
+	for ; i < s.total; i++ {
+		if w := s.word(i, nil); w != nil {
+			return w
+		}
+	}
+	return s.word(0, nil)
+}
+
 func (s *space) names(w []int) []string {
 	o := make([]string, len(w))
 	for i, li := range w {
